@@ -239,7 +239,10 @@ def obj_labels(obj, ref):
 
 def canon_obj(obj, ref):
     priv = tuple(sorted((k, common.freeze(v)) for k, v in obj.__dict__.items() if k in NAMES[ref.cls]["under"]))
-    return common.digest((common.freeze(dict(obj.attrs)), priv, tuple(obj_labels(obj, ref)), getattr(obj, "name", None) if isinstance(obj, Axis) else None))
+    # the NAMES of everything stored on the instance are part of the state: a de-duplication that looked at attrs only would merge a state in
+    # which the library keeps something extra on the object (a remembered value) with the state without it
+    return common.digest((common.freeze(dict(obj.attrs)), priv, tuple(obj_labels(obj, ref)), getattr(obj, "name", None) if isinstance(obj, Axis) else None,
+                          tuple(sorted(k for k in obj.__dict__ if isinstance(k, str)))))
 
 
 class Space(object):
@@ -298,6 +301,7 @@ class Space(object):
             for k in obj.keys():
                 if dict.__getitem__(obj, k).axes["x"] is not obj.axes["x"]:
                     return bad("Dataset after {}: variable {} no longer shares axis x".format(hist[1:], k))
+        state = canon_obj(obj, ref) + ("P" if len(hist[0]) > 2 else "")      # taken BEFORE the probing reads below (they may themselves leave traces)
         # read every public name back through attribute syntax: it must show what attrs holds NOW (no value remembered from an earlier read)
         for name in NAMES[self.cls]["public"]:
             got = call(getattr, obj, name)
@@ -307,7 +311,7 @@ class Space(object):
             elif not (isinstance(got, Raised) and issubclass(got.cls, AttributeError)):
                 return bad("{} after {}: obj.{} reads {} although attrs has no such entry (AttributeError expected)".format(
                     self.cls, hist[1:], name, common.describe(got)))
-        return ok(hist[-1][0], special, canon=canon_obj(obj, ref) + ("P" if len(hist[0]) > 2 else ""))
+        return ok(hist[-1][0], special, canon=state)
 
 
 SPACES = {"DimArray": Space("DimArray"), "Dataset": Space("Dataset"), "Axis": Space("Axis")}
